@@ -48,6 +48,7 @@ LEVEL["decided"] += " (R03.7) an awaitified callable is called and its result aw
 LEVEL["decided"] += ' (R03.10) no attribute a user callable need not have is read unconditionally; R03.2 also covers truth tests of the elements of a *iterables container.'
 LEVEL["decided"] += " (R03.11) no __aexit__ hands back what the source's aclose() returned (R06.3, shared); (R03.12) the truth value of a callable argument is never taken; (R03.13) awaitify's wrappers pass *args and **kwargs on unchanged."
 LEVEL["decided"] += " (R03.14) a user's callable is never handed to a synchronous higher-order function of the standard library; (R03.15) the internal borrow wraps every flavour of source alike (R07.4, shared); R03.2 also covers isinstance / len tests on the elements of a *iterables parameter."
+LEVEL["decided"] += ' R03.13 also: the wrappers take `self` positional-only (a keyword argument named self belongs to the wrapped callable); R03.3 answers questions about objects derived from the callable (what it wraps, its attributes) against the answer for the callable itself, and evaluates the synchronous wrapper for two kinds of source (8 cells).'
 
 # raw calls of user objects that are correct by documented contract (unit -> reason)
 BY_CONTRACT = {
